@@ -77,6 +77,12 @@ func cost(ev string) int {
 	return 0
 }
 
+// dropNoFire: a fault variant whose k-th write never came reaches exactly the
+// state of the plain event, but would carry a spent deviation.
+func dropNoFire(ev, obs string) bool {
+	return len(ev) > 4 && ev[:4] == "fail" && len(obs) >= 6 && obs[:6] == "nofire"
+}
+
 // runScenarios explores every scenario and fills the report.
 func runScenarios(rep *core.Report, scs []scenario) {
 	world.Init()
@@ -85,7 +91,7 @@ func runScenarios(rep *core.Report, scs []scenario) {
 	var bounds []string
 	for _, s := range scs {
 		scenarios[s.Name] = s
-		cfg := xplore.Config{Name: s.Name, New: s.newInst, MaxDepth: s.Depth, Report: rep, Cost: cost, MaxCost: s.MaxCost}
+		cfg := xplore.Config{Name: s.Name, New: s.newInst, MaxDepth: s.Depth, Report: rep, Cost: cost, MaxCost: s.MaxCost, Drop: dropNoFire}
 		st := xplore.Explore(cfg)
 		st.Fill(rep, s.Name+".")
 		if !st.Completed {
@@ -107,7 +113,7 @@ func runScenarios(rep *core.Report, scs []scenario) {
 				s2.Depth = 5
 			}
 			if s2.Depth >= 3 {
-				cfg2 := xplore.Config{Name: s2.Name, New: s2.newInst, MaxDepth: s2.Depth, Report: rep, Cost: cost, MaxCost: s2.MaxCost}
+				cfg2 := xplore.Config{Name: s2.Name, New: s2.newInst, MaxDepth: s2.Depth, Report: rep, Cost: cost, MaxCost: s2.MaxCost, Drop: dropNoFire}
 				st2 := xplore.Explore(cfg2)
 				st2.Fill(rep, s2.Name+".")
 				if !st2.Completed {
